@@ -277,7 +277,7 @@ static void run_history(mt_case * c, int prop) {
       else {
         if (le) le->reap_started = prev;
         stat_timed_to++;
-        if (o->a == 2) mt_fail("timedjoin with a far deadline gave up (rc=%d)", rc);
+        if (o->a == 2 && d_ns == 0x7fffffffffffffffL) mt_fail("timedjoin with a deadline that never comes (%ld.%09ld) gave up (rc=%d)", (long)dl.tv_sec, dl.tv_nsec, rc);   /* a finite far deadline can legitimately pass when the clock step is large and the target is slow: the general rule below decides */
         if (clk_last_ns() < d_ns) mt_fail("timedjoin gave up (rc=%d) at virtual time %ldns, before its deadline %ldns", rc, clk_last_ns(), d_ns);
       }
       mv_progress(); break; }
